@@ -111,7 +111,7 @@ Proof.
   pose (r := match dapply_all d_init (firstn 5 f18_cmds) with Some (_, r) => r | None => [] end).
   pose (d' := match dapply d 6 (CFinishDelete 0 [4294967297]) with Some (d', _) => d' | None => d_init end).
   pose (b := match aget 4294967297 (d_blobs d) with Some b => b | None => mkBlob 9 9 9 9 9 9 9 [] end).
-  exists d, d', r, b. repeat split; vm_compute; reflexivity.
+  exists d, d', r, b. repeat (match goal with |- _ /\ _ => split end); vm_compute; reflexivity.
 Qed.
 
 (* ---------- (d) versions ---------- *)
@@ -180,5 +180,5 @@ Proof.
                  [[mkET 4294967297 0 0 100 2]; []; []; []; []; []]) with Some (d', _) => d' | None => d_init end).
   pose (bb := fun x : dstate => match aget 4294967297 (d_blobs x) with Some b => b | None => mkBlob 9 9 9 9 9 9 9 [] end).
   pose (tt := fun x : dstate => match nth_error (b_tracts (bb x)) 0 with Some t => t | None => mkTract [] 99 None None None None end).
-  exists d, d', (bb d), (bb d'), (tt d), (tt d'). repeat split; vm_compute; reflexivity.
+  exists d, d', (bb d), (bb d'), (tt d), (tt d'). repeat (match goal with |- _ /\ _ => split end); vm_compute; reflexivity.
 Qed.
